@@ -1,11 +1,11 @@
 """C10 — patches built on a stub apply to the real record (P-tier: manifest commit protocol, extension inheritance)."""
-from . import hashing, manifest, mfparts, overlay, record, skeleton
+from . import hashing, manifest, mfparts, overlay, record, skeleton, skelinfo
 
 
 def build(reg):
     record.add_record_bindings(reg)
-    specs = manifest.add_manifest(reg) + skeleton.add_skeleton(reg) + skeleton.add_skeleton_base(reg) + overlay.add_writers(reg) + mfparts.add_mfparts(reg)  # what a patch written on a stub records must not depend on hidden older containers
-    return {"verify": specs, "lemmas": [("stub-chain-continuation", lemma_stub)], "trusted": hashing.TRUSTED + [manifest.T5_MF, record.T5_COPY] + skeleton.T_SKEL + mfparts.T_MFP, "assumptions": ["IH5Record.commit_patch is represented by its C02 contract (refuses with ValueError without effect, or commits the newest container)"]}
+    specs = manifest.add_manifest(reg) + skeleton.add_skeleton(reg) + skeleton.add_skeleton_base(reg) + overlay.add_writers(reg) + mfparts.add_mfparts(reg) + skelinfo.add_skelinfo(reg)  # what a patch written on a stub records must not depend on hidden older containers
+    return {"verify": specs, "lemmas": [("stub-chain-continuation", lemma_stub)], "trusted": hashing.TRUSTED + [manifest.T5_MF, record.T5_COPY] + skeleton.T_SKEL + mfparts.T_MFP + skelinfo.T_SKI, "assumptions": ["IH5Record.commit_patch is represented by its C02 contract (refuses with ValueError without effect, or commits the newest container)"]}
 
 
 def lemma_stub():
